@@ -269,7 +269,7 @@ def run_check(pid, tier):
         return 2
     for j in jobs:
         remaining = budget - (time.time() - t0)
-        share = j.get("share")
+        share = j.get("share_" + tier, j.get("share"))
         dl = max(20.0, remaining if share is None else min(remaining, budget * share))
         try:
             exes[j["name"]] = run_job(res, j, tier, dl, seed)
